@@ -101,6 +101,7 @@ type opT struct {
 	Batch []batchEl `json:"batch"`
 	Ok    string    `json:"ok"` // Always... option of the interface the call went through (set by the driver)
 	Ox    int       `json:"ox"`
+	Late  int       `json:"late"` // Query: the records are taken off the iterator at once but read only after the next Late calls
 }
 
 // optT is the Always... option of a history's interface: none | sec | cj | abs (x = seconds from now) | rel (x = seconds).
@@ -606,9 +607,10 @@ func absExp(d int, t int) int {
 }
 
 type runner struct {
-	d     *dbT
-	iface *database.Interface
-	stop  func()
+	d       *dbT
+	iface   *database.Interface
+	between func() // Query: runs between taking the records off the iterator and reading them
+	stop    func()
 	ok    string // the interface's Always... option as the operations are logged with it
 	ox    int
 }
@@ -747,6 +749,7 @@ func (r *runner) exec(o opT) (res resT) {
 		setErr(err)
 		if err == nil {
 			res.Flag = true
+			var got []record.Record
 			timeout := time.After(15 * time.Second)
 		drain:
 			for {
@@ -755,7 +758,7 @@ func (r *runner) exec(o opT) (res resT) {
 					if !ok {
 						break drain
 					}
-					res.Items = append(res.Items, readItem(rec))
+					got = append(got, rec)
 				case <-timeout:
 					it.Cancel()
 					res.Panic = "query result stream did not end within 15 s"
@@ -765,6 +768,13 @@ func (r *runner) exec(o opT) (res resT) {
 			res.Iterr = errClass(it.Err())
 			if it.Err() != nil {
 				res.Info = it.Err().Error()
+			}
+			// a slow consumer: the result stream has ended, other calls go by, only then are the records looked at
+			if r.between != nil {
+				r.between()
+			}
+			for _, rec := range got {
+				res.Items = append(res.Items, readItem(rec))
 			}
 		}
 	case "Maintain", "MaintainThorough", "MaintainRecordStates":
@@ -830,7 +840,8 @@ func runHistory(tr *vio.Trace, h int, ci int, sc *script, c cfgT) {
 		return
 	}
 	tr.EmitRaw(map[string]any{"e": "reset", "h": h, "c": ci, "cfg": c, "keys": sc.Keys, "opt": sc.Opt})
-	for _, o := range sc.Steps {
+	// one executes one call and returns its event
+	one := func(o opT) (map[string]any, bool) {
 		settle()
 		t := nowRel()
 		o.Ok, o.Ox = r.ok, r.ox
@@ -854,8 +865,52 @@ func runHistory(tr *vio.Trace, h int, ci int, sc *script, c cfgT) {
 		if t0 > t {
 			t0 = t
 		}
-		tr.EmitRaw(map[string]any{"e": "op", "h": h, "c": ci, "op": o, "t0": t0, "t1": t1, "res": res})
-		if hung {
+		return map[string]any{"e": "op", "h": h, "c": ci, "op": o, "t0": t0, "t1": t1, "res": res}, hung
+	}
+	for idx := 0; idx < len(sc.Steps); idx++ {
+		o := sc.Steps[idx]
+		var later []map[string]any
+		hungLater := false
+		skip := 0
+		if o.Op == "Query" && o.Late > 0 && c.C != "write" {
+			// the following calls are made while the records of this query wait to be read; the model sees the query
+			// first (its answer is that of the moment it ran) and the other calls after it
+			n := o.Late
+			if idx+n >= len(sc.Steps) {
+				n = len(sc.Steps) - 1 - idx
+			}
+			skip = n
+			r.between = func() {
+				for j := 1; j <= n; j++ {
+					ev, hung := one(sc.Steps[idx+j])
+					later = append(later, ev)
+					hungLater = hungLater || hung
+				}
+			}
+		}
+		ev, hung := one(o)
+		r.between = nil
+		if skip > 0 && len(later) == 0 {
+			// the query failed before its records were taken: the other calls are made now
+			for j := 1; j <= skip; j++ {
+				e2, h2 := one(sc.Steps[idx+j])
+				later = append(later, e2)
+				hungLater = hungLater || h2
+			}
+		} else if skip > 0 {
+			// the clock of the query is the moment it ran, not the moment its records were read
+			if len(later) > 0 {
+				if t1, ok := later[0]["t0"].(int); ok {
+					ev["t1"] = t1
+				}
+			}
+		}
+		tr.EmitRaw(ev)
+		for _, e2 := range later {
+			tr.EmitRaw(e2)
+		}
+		idx += skip
+		if hung || hungLater {
 			// the stuck goroutine may hold locks of the database: this process cannot go on
 			tr.Close()
 			os.RemoveAll(root)
